@@ -118,6 +118,36 @@ def gen_rec(rng, m, fmt=None, bounded=None, nominal=0.35, max_reps=40):
     return (reps, None, d, anchor), dict(fmt=4, anchor=anchor, interval=d, reps=reps)
 
 
+def gen_sticky_rec(rng, m):
+    """An unbounded recurrence whose anchor sits on a date that a whole-year / whole-month step has
+    to clamp (leap day, day 366, last day of a long month, last week of a long year): stepping
+    keeps the clamped value for good, `anchor + n * interval` would not."""
+    for _ in range(50):
+        y = rng.choice([2000, 2004, 2020, 1996, 2024, 4, 0, -4, 1600, rng.randint(-50, 3000)])
+        kind = rng.choice("codw")
+        if kind == "c":
+            mo = rng.choice([1, 3, 5, 7, 8, 10, 12, 2])
+            date = ("c", y, mo, oracle.month_len(m, y, mo))
+        elif kind == "o":
+            date = ("o", y, oracle.year_len(m, y), 0)
+        elif kind == "d":
+            date = ("c", y, 2, oracle.month_len(m, y, 2))
+        else:
+            date = ("w", y, oracle.weeks_in_year(m, y), rng.randint(1, 7))
+        if T.valid(m, date + (0, 0, 0, 0, 0)):
+            break
+    tzh, tzm = gens.offset(rng) if rng.random() < 0.3 else (0, 0)
+    anchor = date + (rng.choice([0, 0, 12, 23]), rng.choice([0, 30]), 0, tzh, tzm)
+    if rng.random() < 0.6:
+        d = ("U", rng.choice([1, 1, 2, 3, 4]), 0, 0, 0, 0, 0)
+    else:
+        d = ("U", 0, rng.choice([1, 1, 2, 3, 6, 12, 13]), 0, 0, 0, 0)
+    fmt = rng.choice([3, 4])
+    if fmt == 3:
+        return (None, anchor, d, None), dict(fmt=3, anchor=anchor, interval=d, reps=None)
+    return (None, None, d, anchor), dict(fmt=4, anchor=anchor, interval=d, reps=None)
+
+
 def step(m, t, d, sign=1):
     """t + sign*d by the calendar rules (independent of the implementation)."""
     if d[0] == "W":
